@@ -406,7 +406,9 @@ class C13(Sim):
             for q, cnt in (("is_edge_on_border", len(ref.edges)), ("is_face_on_border", len(ref.faces)), ("is_vertex_on_border", ref.nv)):
                 if q in names and cnt <= 160:
                     sweep += [(q, [i]) for i in range(cnt)]
-        plan = [(q, None) for q in flags] + sweep + [(None, None)] * nq
+        # (asking the flags first rebuilds every table: in half of the observations the seeded queries come first, so that each kind of
+        #  query is, now and then, the FIRST one after an edit)
+        plan = ([(q, None) for q in flags] + sweep + [(None, None)] * nq) if r.chance(0.5) else ([(None, None)] * nq + [(q, None) for q in flags] + sweep)
         for q, args in plan:
             if q is None:
                 q = r.choice(border_names) if r.chance(0.3) else r.choice(names)
